@@ -9,9 +9,10 @@ from .expr import ExprMixin
 from .stmt import StmtMixin
 from .calls import CallMixin, ClauseError
 from .lib import LibMixin
+from .fold import FoldMixin
 
 
-class Verifier(ExprMixin, StmtMixin, CallMixin, LibMixin, Executor):
+class Verifier(ExprMixin, StmtMixin, CallMixin, LibMixin, FoldMixin, Executor):
     def __init__(self, prog, cfg=None):
         Executor.__init__(self, prog, cfg)
         self.site_ids = {}
@@ -21,6 +22,11 @@ class Verifier(ExprMixin, StmtMixin, CallMixin, LibMixin, Executor):
         self.pending_heap_havoc = set()
         self.pending_label = None
         self.bounded = set()
+        self.summarised = set()
+        self.in_loop = 0
+        self.nomerge = False
+        self.acc_reg = {}
+        self.acc_mode = 0
         self.alloc_sites = []
         self.unsafe_ptrs = []
         self.models_used = set()
@@ -110,6 +116,7 @@ class Verifier(ExprMixin, StmtMixin, CallMixin, LibMixin, Executor):
         if c is not None and c.error:
             raise Unsupported(c.error)
         self.find_escaped(node.get("Body"), self.escaped)
+        self.nomerge = c is not None and "paths" in c.flags
         st = State()
         inputs = []
         if node.get("Recv") and node["Recv"].get("List"):
@@ -157,11 +164,26 @@ class Verifier(ExprMixin, StmtMixin, CallMixin, LibMixin, Executor):
         out = self.ex_block(node["Body"]["List"], st)
         self.frames.pop()
         rets = list(fr.rets)
-        if out is not None:
-            if fr.result_types and not fr.named_results:
-                raise Unsupported("function falls off the end")
-            rets.append((out, [out.vars[o] for o in fr.named_results]))
+        for o_ in (out if isinstance(out, list) else [out]):
+            if o_ is not None:
+                if fr.result_types and not fr.named_results:
+                    raise Unsupported("function falls off the end")
+                rets.append((o_, [o_.vars[o] for o in fr.named_results]))
         if not rets:
+            return self.obligations
+        split = c is not None and "paths" in c.flags and not fr.defers
+        if split:
+            self.frame_spec = None
+            for (s_, v_) in rets:
+                self.final_state, self.final_results = s_, v_
+                for cl in c.of("ensures"):
+                    try:
+                        g = self.eval_clause(cl, s_, results=v_, old=self.pre_state)
+                    except ClauseError as ex:
+                        self.obligations.append(Obligation("%s:ensures:%s" % (self.prog.short(func.full), cl["label"]), "ensures",
+                                                           TRUE, FALSE, len(self.facts), cl.get("ln"), func, str(ex), cl.get("canary")))
+                        continue
+                    self.oblige_final(s_, "ensures", cl["label"], g, cl.get("ln"), cl["text"], cl.get("canary"))
             return self.obligations
         merged, vals = None, None
         for (s_, v_) in rets:
@@ -241,6 +263,39 @@ class Verifier(ExprMixin, StmtMixin, CallMixin, LibMixin, Executor):
                     "field %s.%s is written only on fresh objects or where `modifies` allows" % (owner.s, name))
 
 
+def pc_literals(pc, out=None):
+    """Branch literals of a path condition: {ast id: polarity} over its top-level conjunction."""
+    out = {} if out is None else out
+    stack = [pc]
+    while stack:
+        x = stack.pop()
+        if z3.is_and(x):
+            stack.extend(x.children())
+        elif z3.is_not(x):
+            out[x.arg(0).get_id()] = False
+        elif not z3.is_true(x):
+            out[x.get_id()] = True
+    return out
+
+
 def build_vc(ex, ob):
-    hyps = [f for f in ex.facts[:ob.nfacts] if not z3.is_true(f)]
+    """Hypotheses of an obligation: every fact assumed before it, except facts assumed on a path that the
+    obligation's own path condition contradicts literally (dropping hypotheses is always sound)."""
+    mine = pc_literals(ob.pc)
+    hyps = []
+    cache = {}
+    for i, f in enumerate(ex.facts[:ob.nfacts]):
+        if z3.is_true(f):
+            continue
+        fpc = ex.fact_pcs.get(i)
+        if fpc is not None and mine:
+            k = fpc.get_id()
+            conflict = cache.get(k)
+            if conflict is None:
+                theirs = pc_literals(fpc)
+                conflict = any(mine.get(a) is (not pol) for a, pol in theirs.items())
+                cache[k] = conflict
+            if conflict:
+                continue
+        hyps.append(f)
     return hyps, ob.pc, ob.goal
